@@ -456,19 +456,63 @@ Definition probe_unexpired_jwt (t : Z) (p : option payload) : bool :=
   | None => true
   end.
 
-Fixpoint clock_from (jwt : bool) (t : Z) (nprev : nat) (steps : list (op * obs * list (option payload))) : option string :=
+(* which (client, grant) table entry the tokens minted by an operation must follow *)
+Definition minting_grant (o : op) : option (nat * lgrant) :=
+  match o with
+  | ORedeem (Some c) _ _ _ _ _ => Some (c, LAuthCode)
+  | ORefresh (Some c) _ _ => Some (c, LRefresh)
+  | OPassword (Some c) _ _ _ _ _ => Some (c, LPassword)
+  | OClientCreds (Some c) _ _ _ _ => Some (c, LClientCreds)
+  | OAuthorize a => Some (az_client a, LImplicit)
+  | ODevicePoll (Some c) _ => Some (c, LDevice)
+  | _ => None
+  end.
+Fixpoint minted_refresh_pos (l : list ckind) : option nat :=
+  match l with [] => None | KRefresh :: _ => Some 0 | _ :: r => option_map S (minted_refresh_pos r) end.
+
+(* the expiry an introspection reports for a freshly minted token lies within half a second (rounding to whole
+   seconds) of now + the client's override for exactly this grant and token type, else the server's default *)
+Definition life_ok (cfg : config) (cls : list client) (t : Z) (nprev : nat) (o : op) (ob : obs) (pr : list (option payload)) : bool :=
+  if String.eqb (o_err ob) "" then
+    match minting_grant o with
+    | Some (c, g) =>
+        match nth_error cls c with
+        | Some cl =>
+            let near (pos : option nat) (life : Z) :=
+              match pos with
+              | Some j => if Z.ltb life 0 then true   (* "unlimited": the handler leaves whatever expiry the session already carries *)
+                          else match nth_error pr (nprev + j) with
+                          | Some (Some pl) => match pl_exp pl with
+                                              | Some e => Z.leb (Z.abs (e - (t + life))) 500
+                                              | None => Z.ltb life 0
+                                              end
+                          | _ => true
+                          end
+              | None => true
+              end in
+            near (minted_access_pos (o_minted ob)) (eff (override cl g false) (cf_life_at cfg)) &&
+            near (minted_refresh_pos (o_minted ob)) (eff (override cl g true) (cf_life_rt cfg))
+        | None => true
+        end
+    | None => true
+    end
+  else true.
+
+Fixpoint clock_from (jwt : bool) (cfg : config) (cls : list client) (t : Z) (nprev : nat) (steps : list (op * obs * list (option payload))) : option string :=
   match steps with
   | [] => None
   | (o, ob, pr) :: rest =>
       let t' := match o with OAdvance ms => (t + ms)%Z | _ => t end in
+      let cls' := match o with OSetClient id c => replace_nth cls id c | _ => cls end in
       if forallb (probe_unexpired t') pr
       then
-        if advertised_ok t' nprev ob pr then clock_from jwt t' (List.length pr) rest
-        else Some "advertised_expires_in_differs_from_the_honoured_expiry"
+        if negb (advertised_ok t' nprev ob pr) then Some "advertised_expires_in_differs_from_the_honoured_expiry"
+        else if negb (life_ok cfg cls t' nprev o ob pr) then Some "token_lifetime_differs_from_the_effective_lifespan_of_its_grant"
+        else clock_from jwt cfg cls' t' (List.length pr) rest
       else if jwt && forallb (probe_unexpired_jwt t') pr then Some "jwt_access_token_honoured_within_the_second_after_its_expiry"
       else Some "token_reported_active_after_its_expiry"
   end.
-Definition monitor_C07 (c : hcase) : option string := clock_from (is_jwt_case c) 0%Z 0 (impl_trace c).
+Definition monitor_C07 (c : hcase) : option string := clock_from (is_jwt_case c) (case_cfg c) (case_clients c) 0%Z 0 (impl_trace c).
 
 (* ------------------------------------------------------------------ C16 *)
 Definition judge_C16 (cfg : config) : judge_t := fun m o ob pr =>
